@@ -40,6 +40,10 @@ def run_worker(prop, tier, seed, index, out, replay=None):
             with case_alarm(getattr(mod, "CASE_TIMEOUT", 60) * 5):
                 mod.replay_case(case, ctx)
             ctx.evaluations += 1
+        elif hasattr(mod, "run_all"):
+            ctx.nworkers = mod.WORKERS[tier] if isinstance(mod.WORKERS, dict) else mod.WORKERS
+            ctx.deadline = t0 + mod.TIME[tier]
+            mod.run_all(ctx)
         else:
             ncases = mod.CASES[tier]
             cap = mod.TIME[tier]
